@@ -1,16 +1,50 @@
+import ActixNet.Model.Lines
 import Driver.Util
-/-! Engine `codec`: line protocol (stub — filled in by the owner of this engine). -/
+/-! Engine `codec`: line protocol for the actix-codec models (C13 Framed read side, C14 Framed
+write side, C15 LinesCodec). -/
 namespace Driver.Codec
-open Driver
+open Driver ActixNet
 
 structure State where
   dummy : Nat := 0
 
 def init : State := {}
 
+/-! ## C15: LinesCodec on a contiguous buffer -/
+
+def resStr : Lines.Res → String
+  | .none => "none"
+  | .ok s => "ok:" ++ toHex s
+  | .err => "err"
+
+def resList (rs : List Lines.Res) : String := "[" ++ ",".intercalate (rs.map resStr) ++ "]"
+
+/-- `decode` until `None`, then `decode_eof` until `None`, and what is left in the buffer -/
+def linesRun (s : List Nat) : String :=
+  let (xs, rest) := Lines.decodeLoop (s.length + 1) s
+  let (ys, rest') := Lines.eofLoop (rest.length + 2) rest
+  s!"dec={resList xs} mid={toHex rest} eof={resList ys} rest={toHex rest'}"
+
+def parseAll (ws : List String) : Option (List (List Nat)) := ws.mapM parseHex
+
 def step (st : State) (line : String) : State × String :=
   match words line with
   | "case" :: _ => (init, "ok")
+  | ["dec", h] => match parseHex h with
+    | some bs => (st, linesRun bs)
+    | none => (st, "bad-op")
+  | "enc" :: hs => match parseAll hs with
+    | some xs =>
+      if xs.all Utf8.valid then (st, toHex (xs.foldl (fun dst x => Lines.encode x dst) []))
+      else (st, "bad-op")   -- not a `str`: the harness cannot even issue it
+    | none => (st, "bad-op")
+  | "rt" :: hs => match parseAll hs with
+    | some xs =>
+      if xs.all Utf8.valid then
+        let buf := xs.foldl (fun dst x => Lines.encode x dst) []
+        (st, s!"buf={toHex buf} {linesRun buf}")
+      else (st, "bad-op")
+    | none => (st, "bad-op")
   | _ => (st, "bad-op")
 
 end Driver.Codec
